@@ -165,6 +165,7 @@ fn gen_case(rng: &mut Rng) -> Case {
     }
     if rng.chance(1, 5) { root_attrs.push(("version".into(), "1.2".into())); }
     if rng.chance(1, 5) { root_attrs.push(("data-author".into(), "me".into())); }
+    if rng.chance(1, 5) { root_attrs.push(("xmlns:xlink".into(), "http://www.w3.org/1999/xlink".into())); }
     let doc = vec![X::El { name: "svg".into(), attrs: root_attrs.clone(), kids: Some(sc.nodes) }];
     Case { doc, border: *rng.pick(&[0u16, 5, 5, 10, 3]), scale: *rng.pick(&[1.0f32, 1.0, 2.0, 0.5, 1.5]), root_attrs, extent: sc.extent }
 }
@@ -173,7 +174,7 @@ fn gen_case(rng: &mut Rng) -> Case {
 fn oracle(case: &Case, root: &El) -> Option<String> {
     let get = |k: &str| root.get(k).map(|s| s.to_string());
     let author = |k: &str| case.root_attrs.iter().find(|(a, _)| a == k).map(|(_, v)| v.clone());
-    for k in ["width", "height", "viewBox", "version", "data-author"] {
+    for k in ["width", "height", "viewBox", "version", "data-author", "xmlns:xlink"] {
         if let Some(v) = author(k) {
             if get(k).as_deref() != Some(v.as_str()) { return Some(format!("author-supplied {k}=\"{v}\" not kept verbatim: {:?}", get(k))); }
         }
